@@ -3,12 +3,79 @@ import json
 
 import numpy as np
 
-from harness import pipeline, paired
+from harness import pipeline, paired, routing, trees
+
+
+def percell_part(ctx):
+    """Function-level tie of Model/PerCell.v: the real run_type_assignment (with the
+    recorded-choice oracle, which is per-cell by construction) on a cell list and on
+    permuted / thinned / duplicated versions of it, against map_one (tag 601) --
+    the per-cell recursion the theorem c06_per_cell equates the routing with."""
+    rng = ctx.rng
+    shapes = list(trees.enumerate_shapes(4, ctx.n(4, 5)))
+    cases = [trees.one_level(sh[1], rng) if sh and sh[0] == 'flat' else trees.build(sh, rng) for sh in shapes]
+    for _ in range(ctx.n(30, 800)):
+        cases.append(trees.random_tree(rng, max_levels=rng.choice([3, 4, 5, 6]), max_leaves=rng.choice([8, 20, 40])))
+    recs = []
+    for gt in cases:
+        base = rng.sample(range(100), rng.randrange(1, 7))
+        table = routing.gen_choices(rng, gt, base)
+        kind = rng.choice(['base', 'permutation', 'subset', 'duplicates'])
+        ids = list(base)
+        if kind == 'permutation':
+            rng.shuffle(ids)
+        elif kind == 'subset':
+            ids = [c for c in ids if rng.random() < 0.6] or ids[:1]
+        elif kind == 'duplicates':
+            ids = ids + [rng.choice(base) for _ in range(rng.randrange(1, 4))]
+            rng.shuffle(ids)
+        try:
+            res, _ = routing.run_impl(gt, ids, table)
+            obs = ('ok', routing.canon_impl(gt, res))
+        except Exception as e:
+            obs = ('err', f'{type(e).__name__}: {e}'[:300])
+        recs.append((gt, ids, table, kind, obs))
+    mres = ctx.model([(601, routing.model_case(gt, ids, table)[1]) for gt, ids, table, _, _ in recs])
+    for (gt, ids, table, kind, obs), m in zip(recs, mres):
+        nontrivial = len(gt.model) >= 2 and any(len(c) >= 2 for lv in gt.model[:-1] for _, c in lv)
+        ctx.count(('percell', gt.shape_key(), tuple(ids)), nontrivial=nontrivial)
+        ctx.dist('percell_variant', kind)
+        desc = {'kind': 'run_type_assignment+oracle vs map_one', 'tree': gt.data, 'cell_ids': ids, 'variant': kind,
+                'choices': [[str(kk), [v[0], str(v[1]), str(v[2]), [[o, bool(f), str(a), str(b)] for o, f, a, b in v[3]]]]
+                            for kk, v in table.items()]}
+        if obs[0] == 'err':
+            ctx.disagreements_checked += 1
+            desc['class'] = 'c06-rta-raises'
+            desc['error'] = obs[1]
+            ctx.violation(f'run_type_assignment raised {obs[1]}', desc, no_input=True)
+            continue
+        if m[0] != 0 or routing.canon_model(m[1]) != obs[1]:
+            ctx.disagreements_checked += 1
+            # which cell differs?  the same cell must get the row map_one gives it
+            desc['class'] = 'corr:PerCell.map_one'
+            desc['model'] = m if len(json.dumps(m)) < 3000 else 'omitted'
+            rows_m = routing.canon_model(m[1]) if m[0] == 0 else None
+            bad = [c for j, c in enumerate(ids) if rows_m is None or j >= len(obs[1]) or rows_m[j] != obs[1][j]]
+            desc['cells_that_differ'] = bad
+            # property statement on the implementation alone: equal cells, equal rows
+            seen, broken = {}, None
+            for j, c in enumerate(ids):
+                if j < len(obs[1]):
+                    if c in seen and seen[c] != obs[1][j]:
+                        broken = c
+                    seen.setdefault(c, obs[1][j])
+            if broken is not None:
+                desc['class'] = 'c06-same-cell-different-rows'
+                ctx.violation(f'cell {broken} occurs twice in one query and got two different rows', desc)
+            else:
+                ctx.violation('run_type_assignment differs from the per-cell recursion map_one', desc, no_input=True)
 
 
 def run(ctx):
     rng = ctx.rng
-    ctx.rule = ('paired real run_mapping runs with bootstrap factor 1: a base query vs (a) a permutation of its cells, '
+    percell_part(ctx)
+    ctx.rule = ('(i) real run_type_assignment with the recorded-choice oracle on cell lists and their permuted / thinned / '
+                'duplicated versions vs the per-cell recursion map_one of the model (tag 601); (ii) paired real run_mapping runs with bootstrap factor 1: a base query vs (a) a permutation of its cells, '
                 '(b) a subset, (c) a superset with added cells, (d) duplicated rows under new ids, (e) other chunk size / '
                 'worker count, (f) raw counts instead of dyadic log2CPM values; joined on cell id; assignments, '
                 'probabilities and runner-up lists equal, correlations within 1e-9; non-trivial = a compared cell in a '
